@@ -23,9 +23,16 @@ impl FrameBuffer {
         self.0.read_from(stream, handler)
     }
 
-    // How many bytes of a frame that is not complete yet have been read.
+    // How many bytes of a frame that is not complete yet have been read - other than of a
+    // heartbeat frame, which says nothing about what its sender is getting on with.
     pub fn pending(&self) -> usize {
-        self.0.buf.chunk().len()
+        const HEARTBEAT_FRAME: u8 = 8;
+        let bytes = self.0.buf.chunk();
+        if bytes.first() == Some(&HEARTBEAT_FRAME) {
+            0
+        } else {
+            bytes.len()
+        }
     }
 }
 
